@@ -46,6 +46,8 @@ OBLIGATIONS = [
     "Grog.Compose.histEvs_writesSound",
     "Grog.Compose.recovery_cache_sound_of_history",
     "Grog.Compose.recovery_next_build_eq_clean_of_history",
+    "Grog.C07.dir_write_is_run",
+    "Grog.C07.dir_write_killed_anywhere",
 ]
 ASSUMPTIONS = [
     "rename(2) within one directory is atomic; CreateTemp names are never re-used (trusted base)",
@@ -182,6 +184,8 @@ def run(ctx):
         for _ in range(4 if quick else 30):
             plans = [{"plan": {str(ctx.rng.randint(1, nops + 1)): ctx.rng.choice(KINDS) for _ in range(ctx.rng.choice([0, 1]))}} for _ in range(3)]
             reqs.append((dict(base, procs=3, lock=False, plans=plans), "concurrent-unlocked"))
+        # every second run with a ProgressTracker: the handlers then hand wrapped (non-seekable) readers to Cas.Write
+        reqs = [(dict(r, progress=(j % 2 == 0)), tag) for j, (r, tag) in enumerate(reqs)]
         outs = S.impl(ctx, [r for r, _ in reqs])
         for (r, tag), x in zip(reqs, outs):
             all_reqs.append(r)
@@ -195,7 +199,7 @@ def run(ctx):
             else:
                 check_run(ctx, r, x, tag, stats, replay_reqs)
             if "events" in x and any(e.get("fault") or e["e"] == "disk-full" for e in x["events"]):
-                distinct.add(hashlib.sha1(S.jdump([wi, r["plans"], r["procs"]]).encode()).hexdigest())
+                distinct.add(hashlib.sha1(S.jdump([wi, r["plans"], r["procs"], r.get("progress")]).encode()).hexdigest())
     remote_read_faults(ctx, scratch, stats)
     # --- trace inclusion -------------------------------------------------------------------------
     rejected = []
@@ -242,7 +246,13 @@ def remote_read_faults(ctx, scratch, stats):
     through the real RemoteWrapper (harness of C08); oracle: content audit of every local cache, successful restores are byte-identical"""
     from . import c08
     hs = [h for h in c08.fixed_histories() if h[3].startswith(("fixed-midstream", "fixed-retry-same-key", "fixed-flat-get-faults", "fixed-5"))]
-    reqs = [{"op": "store.remote", "scratch": scratch, "ws": ws, "targets": t, "history": h} for ws, t, h, _ in hs]
+    # storage faults of a two-tier cache: every write-side / read-side fault cell (remote op x failure point x repetition, local disk full)
+    # through a fresh build, a broken source stream and a restore (quick: every second one)
+    sysh = [h for h in c08.systematic_histories(ctx.rng, False) if h[3].split(":")[1] in ("fresh-build", "broken-source", "restore", "huge")]
+    hs += sysh if ctx.tier != "quick" else sysh[::2]
+    hs = [(ws, t, h + [{"m": "Z", "do": "restore", "targets": list(range(len(t)))}], fam) for ws, t, h, fam in hs]
+    reqs = [{"op": "store.remote", "scratch": scratch, "ws": ws, "targets": t, "history": h, "remote": ("mem", "s3")[i % 2], "progress": i % 4 < 2, "direct": True}
+            for i, (ws, t, h, _) in enumerate(hs)]
     outs = S.impl(ctx, reqs) or []
     n = 0
     for (ws, t, h, fam), req, x in zip(hs, reqs, outs):
@@ -255,7 +265,14 @@ def remote_read_faults(ctx, scratch, stats):
                 ctx.violation("after a failed cache read the local cache of machine %s exposes an entry whose content does not match its key: %s" % (mname, bad[0]),
                               {"kind": "oracle", "oracle": "content audit of the local caches after read faults", "request": req, "step": st, "family": fam},
                               signature="read-fault-leaves-corrupt-entry")
+            for bad in [d for d in (st.get("dangling") or []) if "does not hash" in d]:
+                ctx.violation("after a storage fault the remote tier exposes an object whose content does not match its digest: " + bad,
+                              {"kind": "oracle", "oracle": "content audit of the remote tier after faults", "request": req, "step": st, "family": fam},
+                              signature="fault-leaves-corrupt-remote-entry")
             for r in st.get("results") or []:
+                if r.get("kind", st["do"]) == "rawset" and r["outcome"] == "ok":
+                    ctx.violation("a Set whose source stream failed in the middle reported success", {"kind": "oracle", "oracle": "broken source => error",
+                                  "request": req, "step": st, "family": fam}, signature="broken-source-set-ok")
                 if r.get("kind", st["do"]) == "restore" and r["outcome"] == "ok" and not r.get("equal"):
                     ctx.violation("a restore after a failed cache read produced content that differs from what was cached",
                                   {"kind": "oracle", "oracle": "restored == cached after read faults", "request": req, "step": st, "family": fam},
@@ -264,6 +281,7 @@ def remote_read_faults(ctx, scratch, stats):
                     ctx.violation("a cache read after a failed cache read hangs", {"kind": "oracle", "oracle": "no hang", "request": req, "step": st, "family": fam},
                                   signature="read-fault-hang")
     stats["remote_read_fault_histories"] = n
+    stats["runs"] += n
     ctx.coverage["evaluations"] = ctx.coverage.get("evaluations", 0)
 
 
